@@ -58,11 +58,15 @@ def rule_projection_list(eng, rep, rule="C09-2.bound-box-projected-last-and-neve
             rep.unknown(rule, "Model.projections [%r]" % c, "projection list not tracked by the frame analysis")
             continue
         last = pl.items[-1]
-        if last.k != "closure" or last.tag not in it.closures:
+        if last.k == "obj" and eng.prog.classes.get(last.tag) is not None and "__call__" in eng.prog.classes[last.tag].methods:
+            sub = eng.prog.classes[last.tag].methods["__call__"]        # a callable object instead of a closure
+            probe = it.invoke({"fi": sub, "rets": []}, None, sub, [last, frames.vec("?", tag="probe")], {}, None)
+        elif last.k != "closure" or last.tag not in it.closures:
             rep.bad(rule, "Model.projections [%r]" % c, "solver.solve|last-projector-not-the-box", "the last projector of the solver's list is not the box built in solve")
             continue
-        sub, cenv = it.closures[last.tag]
-        probe = it.invoke({"fi": sub, "rets": []}, None, sub, [frames.vec("?", tag="probe")], {}, cenv.now())
+        else:
+            sub, cenv = it.closures[last.tag]
+            probe = it.invoke({"fi": sub, "rets": []}, None, sub, [frames.vec("?", tag="probe")], {}, cenv.now())
         if frames.is_vec(probe) and required_facts(c) <= set(probe.ex):
             rep.ok(rule, "Model.projections [%r]" % c, "last projector `%s` clamps against the user's bounds (%s); %d user projector(s) before it" % (short(sub.node, 40), ", ".join("%s:%s" % f for f in sorted(required_facts(c))), len(pl.items) - 1))
         else:
